@@ -92,7 +92,7 @@ func propSpecs() map[string]*PropSpec {
 			// three-value transitivity over map-containing types needs minutes per query: thorough tier only
 			return tier == "quick" && kind == "trans" && in.Tags["map"]
 		},
-		Outside: []string{"NaN", "cyclic values", "reflect/unsafe path", "values larger than the bounds"}})
+		Outside: []string{"NaN", "cyclic values", "reflect/unsafe path for unexported fields of imported structs beyond the one fixture harness/static/reflpath", "values larger than the bounds"}})
 	add(&PropSpec{ID: "C04", Extra: reflPath("C04"), Title: "Derived Hash respects Equal", Gen: genC04, AbstractMul: true,
 		SkipKind: func(in Inst, kind, tier string) bool {
 			// the two-independent-values form over nested containers of string-bearing structs needs minutes;
@@ -125,9 +125,9 @@ func propSpecs() map[string]*PropSpec {
 			}
 			return true
 		},
-		Outside: []string{"NaN", "cyclic values", "reflect/unsafe path", "values larger than the bounds", "hashing across processes other than through map iteration order"}})
+		Outside: []string{"NaN", "cyclic values", "reflect/unsafe path for unexported fields of imported structs beyond the one fixture harness/static/reflpath", "values larger than the bounds", "hashing across processes other than through map iteration order"}})
 	add(&PropSpec{ID: "C05", Extra: reflPath("C05"), Title: "DeepCopy and Clone produce an equal, fully independent copy", Gen: genC05,
-		Outside: []string{"cyclic values", "destinations sharing memory with the source", "reflect/unsafe path"}})
+		Outside: []string{"cyclic values", "destinations sharing memory with the source", "reflect/unsafe path for unexported fields of imported structs beyond the one fixture harness/static/reflpath"}})
 	elemInsts := func(tier string, seed int64) []Inst {
 		var out []Inst
 		for _, e := range elemCorpus(tier) {
@@ -161,9 +161,10 @@ func propSpecs() map[string]*PropSpec {
 			r.modeStatic("static", "c11e2e", "^VX_C11_e2e_", DefaultBounds, false, func(rel string, fp *FixPkg) { c11EndToEnd(r, rel, fp) })
 		}})
 	add(&PropSpec{ID: "C08", Title: "Generation is deterministic and independent of invocation context", Level: "other",
-		Outside: []string{"invocation context: other packages named in the same run, argument order, path spelling (go/loader behaviour)", "the text of generated function bodies", "more than 3 operations per table"},
+		Outside: []string{"invocation context: other packages named in the same run, argument order, path spelling (go/loader behaviour)", "the text of generated function bodies (compared byte for byte only on the 6 repeat-run fixtures)", "more than 3 operations per table"},
 		RunFn: func(r *Runner) {
 			r.modeB("derive", "^VX_C08_", true, DefaultBounds)
+			c08Repeat(r)
 		}})
 	add(&PropSpec{ID: "C12", Title: "Prefix customisation only renames", Level: "other",
 		Outside: []string{"textual identity of the output under -prefix", "more than 4 plugins / prefixes outside the alphabet"},
